@@ -60,8 +60,10 @@ pub fn mig_case() -> BoxedStrategy<MigCase> {
     (
         (case_strategy(&p), prop_oneof![8 => Just(0u8), 1 => Just(1u8), 1 => Just(2u8)], 0u8..20, 0u8..3),
         (
-            proptest::collection::vec(pkt, 0..40),
-            proptest::collection::vec((any::<u32>().prop_map(|x| x as u64), amount), 0..6),
+            // "any number of packets": mostly a few, sometimes several pages' worth
+            prop_oneof![8 => proptest::collection::vec(pkt.clone(), 0..40), 1 => proptest::collection::vec(pkt.clone(), 40..130), 1 => proptest::collection::vec(pkt, 130..320)],
+            // reply ids anywhere relative to the packet keys: below, among, above, and time-sized
+            proptest::collection::vec((prop_oneof![3 => 0u64..70_000, 2 => any::<u32>().prop_map(|x| x as u64), 1 => any::<u64>()], amount), 0..6),
             any::<bool>(),
             any::<u8>(),
             prop_oneof![6 => Just(0u8), 1 => 1u8..4],
